@@ -64,7 +64,10 @@ CLAIMED.update({
                 "(optimised or not); validate_names_failing that it names exactly the failing examples; validate_no_panic / "
                 "validate_malformed_example that a non-mapping example is an error entry, never a panic (fix D2). Random rules with "
                 "mixed example lists are run on the crate: the harness re-runs matches() on each example and compares with "
-                "validate()'s result and message, for the unoptimised and six optimised variants.",
+                "validate()'s result and message, for the unoptimised and six optimised variants. C13_opt: validate_ext (validate "
+                "depends on a rule only through matches() and the example lists) and validate_optimised_in_scope (inside the "
+                "executable scope of the end-to-end C01 theorem, all 16 switch sets, validate() of the optimised rule returns "
+                "exactly what validate() of the loaded rule returns).",
         "note": TB + "The crate returns one joined message; that it names each failing example is checked by counting the per-example phrases in it.",
         "technique": "Coq proof (induction over the example lists) + differential runs with an in-harness cross-check of validate() against matches()",
     },
@@ -203,7 +206,7 @@ CLAIMED.update({
                 "quantified_identifier_exact cover the absent field, plain lists and all(X)/of(X,n). On the crate every quantified "
                 "form (key lists of strings, numbers, booleans, mappings; identifier forms) for lengths 1..4-5 and thresholds "
                 "0..len+1 is compared with the same rule written as explicit and/or/not over one-member identifiers.",
-        "note": TB + "Theorems are for string members on scalar string fields; numeric/boolean/mapping members and the identifier forms are covered by the explicit-expansion differential. Known findings D10, D11, D24 listed; D26 (array-valued fields) is outside C08's scalar-field quantifier and belongs to C02.",
+        "note": TB + "C08's own theorems are for string members on scalar string fields; numeric / boolean / null members, every key form and every value kind are covered by list_entry_refines (Properties/C02_lists.v: the count is over the members as written, by a counting invariant over the loader's batching), mapping members and the identifier forms by the explicit-expansion differential (and Pending/C02_all.v). Known findings D10, D11, D24 listed; D26 (array-valued fields) belongs to C02.",
         "technique": "Coq proof (counting invariant over the parser's list partition) + quantified-vs-explicit differential on the crate",
     },
 })
